@@ -4,7 +4,7 @@ import NunVerif.Gen.Close
 /-
   C17 / C20 — the disconnect glue of the transports is what the model's close sequences assume.
 
-  The harness does not run `tcp_ops::handle_client`, `ws_ops::on_close` or the socket side of
+  The harness does not run `tcp_ops::handle_client`, the websocket handler's `release` (reached from `on_close` and from `Drop`) or the socket side of
   `http_ops`: its `CLOSE` operation (and the model's `Node.tcpClose` / `Node.http`) re-enact their
   disconnect sequence — `unwatch-all`, then (tcp only, for a connection that announced itself as a
   cluster member) the leave handling, then `Client::left`, the last two UNCONDITIONALLY.  The theorem
@@ -23,6 +23,11 @@ theorem C17_tcp_disconnect_releases_unconditionally :
 
 theorem C17_ws_disconnect_releases_unconditionally :
     (AL.get? Gen.closeSequences b!"ws").map closeCore = some [(b!"unwatch-all", 0), (b!"left", 0)] := by decide +kernel
+
+/-- the websocket handler reaches its release from both ends of a connection's life: the close frame (`on_close`) and the
+handler being dropped (a connection the library tears down after a protocol error never gets an `on_close`; fix 8d6b870) -/
+theorem C17_ws_release_is_reached_from_on_close_and_from_drop :
+    AL.get? Gen.closeSequences b!"ws-on-close" = some [(b!"release", 0)] ∧ AL.get? Gen.closeSequences b!"ws-drop" = some [(b!"release", 0)] := by decide +kernel
 
 theorem C20_http_request_end_releases_unconditionally :
     (AL.get? Gen.closeSequences b!"http").map closeCore = some [(b!"unwatch-all", 0), (b!"left", 0)] := by decide +kernel
